@@ -1,6 +1,6 @@
 /-
   `rd` scenario family: structure of text / dot renderings.
-  header:  dtree ( <name> <bb> <isDec> <child>… )     names use ~ for blank, ^ for newline
+  header:  dtree ( <name> <bb> <isDec> <child>… )     names use ~ for blank, ^ for newline, % for carriage return
 -/
 import Driver.Codec
 import PyTreesModel.Display
@@ -9,9 +9,9 @@ namespace Rd
 open Codec
 
 def decName (t : String) : Name :=
-  t.toList.map (fun c => if c = '~' then ' ' else if c = '^' then '\n' else c)
+  t.toList.map (fun c => if c = '~' then ' ' else if c = '^' then '\n' else if c = '%' then '\r' else c)
 def encName (n : Name) : String :=
-  String.ofList (n.map (fun c => if c = ' ' then '~' else if c = '\n' then '^' else c))
+  String.ofList (n.map (fun c => if c = ' ' then '~' else if c = '\n' then '^' else if c = '\r' then '%' else c))
 
 partial def parseD : List String → Option (DTree × List String)
 | "(" :: nm :: bb :: d :: rest => do
